@@ -179,7 +179,6 @@ func (p *Parser) readBookingLine() (bool, error) {
 		return false, err
 	}
 	if len(rec) < 7 || len(rec) > 8 {
-		fmt.Println(len(rec), rec)
 		return false, nil
 	}
 	date, err := time.Parse("02.01.2006", rec[bfBuchungsdatum])
